@@ -74,6 +74,16 @@ def values_of(pr):
     return pr.value['values'] if pr is not None and pr.value else None
 
 
+def _rd_ok(ry, rmo, rd):
+    """the reference day exists (symx: any day of the month; other engines: up to the 28th)"""
+    if ENGINE == 'sx':
+        from lib import symdate
+        return rd <= symdate.days_in_month(ry, rmo)
+    if ENGINE == 'native':
+        return rd <= dim(ry, rmo)
+    return rd <= 28
+
+
 def _ref(ry, rmo, rd, hh, mi):
     if TOD:
         return datetime(ry, rmo, rd, hh, mi)
@@ -89,7 +99,7 @@ def _set_tables(m, d):
 def h_full_date(y: int, d: int, ry: int, rmo: int, rd: int, hh: int, mi: int):
     """year given as 4 digits; month M (slice), day d symbolic; any reference"""
     assert 1900 <= y <= 2099 and 1 <= d <= 31
-    assert 1950 <= ry <= 2090 and 1 <= rmo <= 12 and 1 <= rd <= 28 and 0 <= hh <= 23 and 0 <= mi <= 59
+    assert 1950 <= ry <= 2090 and 1 <= rmo <= 12 and 1 <= rd <= 31 and _rd_ok(ry, rmo, rd) and 0 <= hh <= 23 and 0 <= mi <= 59
     digits.reset()
     _set_tables(M, d)
     ref = _ref(ry, rmo, rd, hh, mi)
@@ -107,7 +117,7 @@ def h_full_date(y: int, d: int, ry: int, rmo: int, rd: int, hh: int, mi: int):
 
 def t_full_date(y: int, d: int, ry: int, rmo: int, rd: int, hh: int, mi: int):
     assert 1900 <= y <= 2099 and 1 <= d <= 28
-    assert 1950 <= ry <= 2090 and 1 <= rmo <= 12 and 1 <= rd <= 28 and 0 <= hh <= 23 and 0 <= mi <= 59
+    assert 1950 <= ry <= 2090 and 1 <= rmo <= 12 and 1 <= rd <= 31 and _rd_ok(ry, rmo, rd) and 0 <= hh <= 23 and 0 <= mi <= 59
     digits.reset()
     _set_tables(M, d)
     pr = run(DP.config.date_regex[0], {'year': digits.ph(y, 4), 'month': 'M', 'day': 'D'}, _ref(ry, rmo, rd, hh, mi))
@@ -123,14 +133,14 @@ def _same_day_later(ry, rmo, rd, hh, mi, m, d):
 
 def h_noyear(d: int, ry: int, rmo: int, rd: int, hh: int, mi: int):
     assert 1 <= d <= DIM_MAX[M] and not (M == 2 and d == 29)
-    assert 1950 <= ry <= 2090 and 1 <= rmo <= 12 and 1 <= rd <= 28 and 0 <= hh <= 23 and 0 <= mi <= 59
+    assert 1950 <= ry <= 2090 and 1 <= rmo <= 12 and 1 <= rd <= 31 and _rd_ok(ry, rmo, rd) and 0 <= hh <= 23 and 0 <= mi <= 59
     assert not _same_day_later(ry, rmo, rd, hh, mi, M, d)
     _noyear_body(d, ry, rmo, rd, hh, mi)
 
 
 def h_noyear_kf(d: int, ry: int, rmo: int, rd: int, hh: int, mi: int):
     assert 1 <= d <= DIM_MAX[M] and not (M == 2 and d == 29)
-    assert 1950 <= ry <= 2090 and 1 <= rmo <= 12 and 1 <= rd <= 28 and 0 <= hh <= 23 and 0 <= mi <= 59
+    assert 1950 <= ry <= 2090 and 1 <= rmo <= 12 and 1 <= rd <= 31 and _rd_ok(ry, rmo, rd) and 0 <= hh <= 23 and 0 <= mi <= 59
     assert _same_day_later(ry, rmo, rd, hh, mi, M, d)
     _noyear_body(d, ry, rmo, rd, hh, mi)
 
@@ -160,7 +170,7 @@ def _noyear_body(d, ry, rmo, rd, hh, mi):
 
 def h_feb29(ry: int, rmo: int, rd: int):
     """29 February without a year: the neighbouring leap days"""
-    assert 1950 <= ry <= 2090 and 1 <= rmo <= 12 and 1 <= rd <= 28
+    assert 1950 <= ry <= 2090 and 1 <= rmo <= 12 and 1 <= rd <= 31 and _rd_ok(ry, rmo, rd)
     digits.reset()
     del SPY[:]
     _set_tables(2, 29)
